@@ -21,6 +21,9 @@ def optTok (o : Option Token) : R Token := match o with | some t => .ok t | none
 /-- a bool flag that is still None where a bool is needed -/
 def optBool (o : Option Bool) : R Bool := match o with | some b => .ok b | none => .error .TypeError
 
+/-- `len(res)` etc. on a result that is still None -/
+def optRes (o : Option Res) : R Res := match o with | some r => .ok r | none => .error .TypeError
+
 def truthyOptNat (o : Option Nat) : Bool := match o with | some n => n != 0 | none => false
 def truthyOptInt (o : Option Int) : Bool := match o with | some n => n != 0 | none => false
 
@@ -150,5 +153,22 @@ structure FoldDt where
 def FoldDt.tzname (d : FoldDt) : Option Token := if d.fold = 0 then d.n0 else d.n1
 /-- `tz.enfold(dt, fold=k)` -/
 def FoldDt.enfold (d : FoldDt) (k : Nat) : FoldDt := { d with fold := k }
+
+/-! ### the datetime `parser.parse` returns, as far as the model speaks about it -/
+
+/-- wall time + what its `tzinfo` is -/
+structure ADt where
+  dt : DT
+  tz : FinalTz
+  deriving Repr, DecidableEq, Inhabited
+
+/-- `self._build_tzaware(ret, res, tzinfos)` — NOT translated: the hand model's cascade `PM.buildTzaware` (zone rows put the
+    zone; the nothing-found row keeps the datetime; the unknown-name row warns and strips the tzinfo) -/
+def buildTzawareStandIn (tznames : List Token) (tzi : TzInfos) (ret : ADt) (res : Res) : R ADt :=
+  match buildTzaware tznames tzi res with
+  | .ok .naive => .ok ret
+  | .ok (.naiveWarn n) => .ok { ret with tz := .noneWarn n }
+  | .ok z => .ok { ret with tz := .zone z }
+  | .error e => .error e
 
 end PPy
